@@ -25,10 +25,15 @@ def _jsonable(x: typing.Any) -> typing.Any:
         return {"__bytes__": bytes(x).decode("latin-1")}
     if isinstance(x, (list, tuple)):
         return [_jsonable(v) for v in x]
-    if isinstance(x, dict):
+    if isinstance(x, dict) or (hasattr(x, "items") and hasattr(x, "keys")):
         return {str(k): _jsonable(v) for k, v in x.items()}
     if isinstance(x, (str, int, float, bool)) or x is None:
         return x
+    if hasattr(x, "__iter__") and hasattr(x, "__len__") and not isinstance(x, type):
+        try:
+            return [_jsonable(v) for v in x]
+        except Exception:
+            pass
     return repr(x)
 
 
@@ -71,6 +76,7 @@ def run_job(job: dict) -> dict:
     from . import api
 
     api.SHARD = dict(job.get("shard") or {})
+    api.ACTIVE_PROP = job.get("prop", "")
     api.KNOWN = {k: set(v) for k, v in (job.get("known") or {}).items()}
     mod = importlib.import_module(job["module"])
     h = api.REGISTRY[job["key"]]
@@ -100,6 +106,7 @@ def run_job(job: dict) -> dict:
 
     # 2. symbolic exploration
     import z3
+    import crosshair.core_and_libs  # noqa: F401  (registers library models and opcode patches)
     from crosshair import core as ch
     from crosshair.condition_parser import (
         POSTCONDITION,
@@ -168,7 +175,15 @@ def run_job(job: dict) -> dict:
     dbg: dict[str, typing.Any] = {}
     orig_debug = ch.debug
 
+    verbose = bool(os.environ.get("VERIF_CH_DEBUG"))
+    if verbose:
+        from crosshair.util import set_debug
+
+        set_debug(True)
+
     def spy_debug(*a):  # type: ignore[no-untyped-def]
+        if verbose:
+            orig_debug(*a)
         if a and a[0] in ("Exhausted", "Aborted"):
             dbg["end"] = a[0]
             dbg["iterations"] = a[-1]
